@@ -179,7 +179,7 @@ fn check_roundtrip<const N: usize>(t: u8) {
 }
 
 // @harness c04_sync_decode
-// @props C04
+// @props C04 C03
 // @tier quick
 // @timeout 900
 // @functions Message::deserialize, Header::deserialize_header, MessageBody::deserialize, SyncMessage::deserialize_content, TlvSet::deserialize, TlvSetIterator::next, Message::serialize, Header::serialize_header, Message::wire_size, PartialEq for Message
@@ -321,7 +321,7 @@ fn c04_pdelay_resp_follow_up_decode() { check_decode::<66>(T_PDELAY_RESP_FOLLOW_
 fn c04_pdelay_resp_follow_up_roundtrip() { check_roundtrip::<66>(T_PDELAY_RESP_FOLLOW_UP) }
 
 // @harness c04_announce_decode
-// @props C04
+// @props C04 C03:thorough
 // @tier quick
 // @timeout 1200
 // @functions Message::deserialize, AnnounceMessage::deserialize_content, ClockQuality::deserialize, ClockAccuracy::from_primitive, TimeSource::from_primitive, Message::serialize, AnnounceMessage::serialize_content
